@@ -64,3 +64,8 @@ add('C13', 'exploration', 'before/after state monitor (behaviour fingerprint, wh
     'Every single-slot corruption of callback signatures, too-few When/Return arguments, size-mismatching return values, unknown names and wrong Interface arguments is applied to unmocked and already-mocked targets; the monitor requires a panic/error with a consistently walkable cause chain, and behaviour, the complete executable image and the interface variable equal to their state before the rejected call, and a correct configuration to work right afterwards. The mistake list is enumerated completely for the 7 targets; signatures are sampled by those targets.',
     'Granularity is one API call; When()/Return() with no argument at all is not a mistake the statement names.',
     'DESIGN.md 2 C13')
+
+add('C10', 'exploration', 'runtime cross-check of every looked-up address against runtime.FuncForPC / &v, under four link modes',
+    'Every function symbol of the running binary and 200 generated variables in all data sections are looked up by name through goom\'s symbol-table reader and compared with the address the running process really uses; near-miss and absent names must produce an error; the same sources are rebuilt and re-run stripped (-s, -w) and position-independent. All symbols of the binary are enumerated; link modes are the four listed.',
+    'Function names are compared after the runtime\'s own [...] normalisation of generic names; cgo stubs have no runtime name and are checked by entry address only.',
+    'DESIGN.md 2 C10')
